@@ -10,6 +10,7 @@ import (
 
 	"github.com/gofiber/fiber/v3/binder"
 	"github.com/gofiber/utils/v2"
+	"github.com/tinylib/msgp/msgp"
 	"github.com/valyala/bytebufferpool"
 )
 
@@ -296,11 +297,18 @@ func (r *Redirect) Back(fallback ...string) error {
 // parseAndClearFlashMessages is a method to get flash messages before they are getting removed
 func (r *Redirect) parseAndClearFlashMessages() {
 	// parse flash messages
-	cookieValue := r.c.Cookies(FlashCookieName)
+	cookieValue := r.c.app.getBytes(r.c.Cookies(FlashCookieName))
 
-	_, err := r.c.flashMessages.UnmarshalMsg(r.c.app.getBytes(cookieValue))
-	if err != nil {
+	// every element takes at least one byte: a header announcing more elements than there are
+	// bytes is malformed and must not size the allocation
+	if n, _, err := msgp.ReadArrayHeaderBytes(cookieValue); err != nil || int64(n) > int64(len(cookieValue)) {
+		r.c.flashMessages = r.c.flashMessages[:0]
 		return
+	}
+
+	if _, err := r.c.flashMessages.UnmarshalMsg(cookieValue); err != nil {
+		// a cookie that is not a well-formed encoding yields no messages
+		r.c.flashMessages = r.c.flashMessages[:0]
 	}
 }
 
